@@ -38,6 +38,8 @@ import (
 	"github.com/smallstep/certificates/authority"
 	"github.com/smallstep/certificates/authority/config"
 	"github.com/smallstep/certificates/authority/provisioner"
+	casapi "github.com/smallstep/certificates/cas/apiv1"
+	"github.com/smallstep/certificates/cas/softcas"
 	c "verif/harness/common"
 )
 
@@ -71,6 +73,7 @@ type RenewCase struct {
 	TNB, TNA TD // X.509 template notBefore / notAfter
 	TVA, TVB TD // SSH template validAfter / validBefore
 	Hook     bool // the template takes those dates from the data an ENRICHING webhook returns
+	LtCAS    bool // the authority's CAS issues from its own clock and the lifetime it is handed (RA / cloud / vault style)
 }
 
 type envT struct {
@@ -302,6 +305,36 @@ func (k *RenewCase) templates(base time.Time) *provisioner.Options {
 	return &o
 }
 
+// recCAS is a certificate authority service that records the lifetime and backdate the authority hands over and
+// — like StepCAS in RA mode, CloudCAS and VaultCAS — does not keep the template's dates: it lets the real SoftCAS
+// issue from its own clock (template dates cleared), i.e. [now − backdate, now + lifetime].
+type recCAS struct {
+	inner    *softcas.SoftCAS
+	lifetime time.Duration
+	backdate time.Duration
+	calls    int
+}
+
+func (r *recCAS) CreateCertificate(req *casapi.CreateCertificateRequest) (*casapi.CreateCertificateResponse, error) {
+	r.lifetime, r.backdate, r.calls = req.Lifetime, req.Backdate, r.calls+1
+	tpl := *req.Template
+	tpl.NotBefore, tpl.NotAfter = time.Time{}, time.Time{}
+	r2 := *req
+	r2.Template = &tpl
+	return r.inner.CreateCertificate(&r2)
+}
+
+func (r *recCAS) RenewCertificate(req *casapi.RenewCertificateRequest) (*casapi.RenewCertificateResponse, error) {
+	r.lifetime, r.backdate, r.calls = req.Lifetime, req.Backdate, r.calls+1
+	return r.inner.RenewCertificate(req)
+}
+
+func (r *recCAS) RevokeCertificate(req *casapi.RevokeCertificateRequest) (*casapi.RevokeCertificateResponse, error) {
+	return r.inner.RevokeCertificate(req)
+}
+
+var lastCAS *recCAS
+
 func (k *RenewCase) authority(base time.Time) (*authority.Authority, error) {
 	e := getEnv()
 	pub := e.jwk.Public()
@@ -327,8 +360,18 @@ func (k *RenewCase) authority(base time.Time) (*authority.Authority, error) {
 			Claims:       k.A.claims(),
 		},
 	}
+	x509opt := authority.WithX509Signer(e.inter, e.interKey)
+	lastCAS = nil
+	if k.LtCAS {
+		sc, err := softcas.New(context.Background(), casapi.Options{CertificateChain: []*x509.Certificate{e.inter}, Signer: e.interKey})
+		if err != nil {
+			return nil, err
+		}
+		lastCAS = &recCAS{inner: sc}
+		x509opt = authority.WithX509CAService(lastCAS)
+	}
 	return authority.NewEmbedded(authority.WithConfig(cfg), authority.WithX509RootCerts(e.root),
-		authority.WithX509Signer(e.inter, e.interKey), authority.WithSSHUserSigner(e.sshUser),
+		x509opt, authority.WithSSHUserSigner(e.sshUser),
 		authority.WithSSHHostSigner(e.sshHost), authority.WithQuietInit())
 }
 
@@ -536,6 +579,15 @@ func (k *RenewCase) runAll() (out [][2]string) {
 			if err != nil {
 				dbg("Sign "+k.Prov, err)
 				impl = "rej"
+			} else if k.LtCAS && lastCAS != nil {
+				// what the CAS was handed, and whether what a lifetime-based CAS issues has that length (+ backdate)
+				want := lastCAS.lifetime + lastCAS.backdate
+				got := certs[0].NotAfter.Sub(certs[0].NotBefore)
+				dok := 0
+				if got > want-time.Second && got < want+time.Second && int64(lastCAS.backdate) == k.Backdate {
+					dok = 1
+				}
+				impl = fmt.Sprintf("ok lt=%d dok=%d", int64(lastCAS.lifetime), dok)
 			} else {
 				impl = fmt.Sprintf("ok cert=%d,%d", certs[0].NotBefore.Unix()+unixToInternal, certs[0].NotAfter.Unix()+unixToInternal)
 			}
@@ -543,7 +595,11 @@ func (k *RenewCase) runAll() (out [][2]string) {
 		}
 		tnb, _ := tplTime(k.TNB, base)
 		tna, _ := tplTime(k.TNA, base)
-		line = fmt.Sprintf("x509 e2e=1 cas=1 mode=%s lnb=%s lna=%s g=%s p=%s bd=%d now=%s vnow=%s snb=%s sna=%s cnb=%s cna=%s",
+		casMode := "1"
+		if k.LtCAS {
+			casMode = "lt"
+		}
+		line = fmt.Sprintf("x509 e2e=1 cas="+casMode+" mode=%s lnb=%s lna=%s g=%s p=%s bd=%d now=%s vnow=%s snb=%s sna=%s cnb=%s cna=%s",
 			mode, timeS(lnb), timeS(lna), g, k.P, k.Backdate, timeS(base), timeS(vnow), snbS, snaS, timeS(tnb), timeS(tna))
 		out = append(out, [2]string{line, impl})
 		// renewal is gated on the old certificate being currently valid (C09): only then compare
@@ -553,9 +609,31 @@ func (k *RenewCase) runAll() (out [][2]string) {
 			nc, err := a.Renew(certs[0])
 			t1 := time.Now()
 			rl := fmt.Sprintf("xrenew casnow=%s bd=%d onb=%s ona=%s", timeS(t0), k.Backdate, timeS(certs[0].NotBefore), timeS(certs[0].NotAfter))
+			// does the renewed certificate expire in the future? (asked when the margin duration − backdate is at least 2 s either way)
+			liveS := ""
+			if m := certs[0].NotAfter.Sub(certs[0].NotBefore) - time.Duration(k.Backdate); (m >= 2*time.Second || m <= -2*time.Second) && err == nil {
+				rl += " lv=1"
+				liveS = " live=1"
+				if nc[0].NotAfter.Before(t1) {
+					liveS = " live=0"
+				}
+			}
+			ltS := ""
+			if k.LtCAS && lastCAS != nil {
+				rl += " lt=1"
+				ltS = fmt.Sprintf("lt=%d ", int64(lastCAS.lifetime))
+			}
 			if err != nil {
 				dbg("Renew", err)
 				out = append(out, [2]string{rl, "rej:500:cas"})
+			} else if ltS != "" {
+				lo := t0.Add(-time.Duration(k.Backdate)).Truncate(time.Second)
+				hi := t1.Add(-time.Duration(k.Backdate)).Truncate(time.Second)
+				off := "0"
+				if nc[0].NotBefore.Before(lo) || nc[0].NotBefore.After(hi) {
+					off = fmt.Sprint(nc[0].NotBefore.Sub(lo))
+				}
+				out = append(out, [2]string{rl, fmt.Sprintf("ok %sd=%d nboff=%s", ltS, nc[0].NotAfter.Unix()-nc[0].NotBefore.Unix(), off) + liveS})
 			} else {
 				lo := t0.Add(-time.Duration(k.Backdate)).Truncate(time.Second)
 				hi := t1.Add(-time.Duration(k.Backdate)).Truncate(time.Second)
@@ -563,7 +641,7 @@ func (k *RenewCase) runAll() (out [][2]string) {
 				if nc[0].NotBefore.Before(lo) || nc[0].NotBefore.After(hi) {
 					off = fmt.Sprint(nc[0].NotBefore.Sub(lo))
 				}
-				out = append(out, [2]string{rl, fmt.Sprintf("ok d=%d nboff=%s", nc[0].NotAfter.Unix()-nc[0].NotBefore.Unix(), off)})
+				out = append(out, [2]string{rl, fmt.Sprintf("ok d=%d nboff=%s", nc[0].NotAfter.Unix()-nc[0].NotBefore.Unix(), off) + liveS})
 			}
 		}
 	case "ssh":
@@ -641,6 +719,15 @@ func (k *RenewCase) runAll() (out [][2]string) {
 						off = fmt.Sprint(int64(nc.ValidAfter) - int64(lo))
 					}
 					res = fmt.Sprintf("ok d=%d vaoff=%s", nc.ValidBefore-nc.ValidAfter, off)
+					// does the new certificate expire in the future? (asked when the margin is at least 3 s either way)
+					if m := int64(cert.ValidBefore-cert.ValidAfter) - k.Backdate/int64(time.Second); m >= 3 || m <= -3 {
+						rl += " lv=1"
+						if nc.ValidBefore > uint64(t1.Unix()) {
+							res += " live=1"
+						} else {
+							res += " live=0"
+						}
+					}
 				}
 				out = append(out, [2]string{rl, res})
 			}
@@ -907,6 +994,9 @@ func genE2E(r *c.Rng) *Case {
 			k.Hook = r.Chance(1, 3)
 		}
 	}
+	if k.Kind == "x509" && r.Chance(1, 4) {
+		k.LtCAS = true
+	}
 	if k.Prov == "k8ssa" || k.Prov == "scep" || k.Prov == "gcp" || k.Prov == "azure" || k.Prov == "aws" {
 		// its default templates copy the request (no subject / type in the template data): keep them
 		k.TNB, k.TNA, k.TVA, k.TVB = TD{}, TD{}, TD{}, TD{}
@@ -934,6 +1024,14 @@ func cornerE2E() []*Case {
 		{Renew: &RenewCase{Kind: "ssh", Prov: "x5c", CType: 2, Backdate: min, Renew: true, LNB: T{Rel: true, Off: -hr}, LNA: T{Rel: true, Off: hr}}},
 		{Renew: &RenewCase{Kind: "x509", Prov: "nebula", Backdate: min, Renew: true, LNB: T{Rel: true, Off: -hr}, LNA: T{Rel: true, Off: hr}}},
 		{Renew: &RenewCase{Kind: "ssh", Prov: "nebula", CType: 2, Backdate: min, Renew: true, LNB: T{Rel: true, Off: -hr}, LNA: T{Rel: true, Off: hr}}},
+		// a CAS that issues from the lifetime it is handed (RA / cloud / vault style): explicit future and past notBefore,
+		// a certificate exactly as long as the backdate, renewal of a certificate not longer than the backdate
+		{Renew: &RenewCase{Kind: "x509", Prov: "jwk", Backdate: min, LtCAS: true, Renew: true}},
+		{Renew: &RenewCase{Kind: "x509", Prov: "jwk", Backdate: min, LtCAS: true, SNB: TD{Kind: 1, T: T{Rel: true, Off: 6 * hr}}, SNA: TD{Kind: 2, D: dy}}},
+		{Renew: &RenewCase{Kind: "x509", Prov: "jwk", Backdate: min, LtCAS: true, SNB: TD{Kind: 1, T: T{Rel: true, Off: -6 * hr}}, SNA: TD{Kind: 2, D: dy}, Renew: true}},
+		{Renew: &RenewCase{Kind: "x509", Prov: "jwk", Backdate: 5 * min, LtCAS: true, SNB: TD{Kind: 1, T: T{Rel: true, Off: -10 * sec}}, SNA: TD{Kind: 2, D: 5 * min}, Renew: true}},
+		{Renew: &RenewCase{Kind: "x509", Prov: "jwk", Backdate: 10 * min, SNB: TD{Kind: 1, T: T{Rel: true, Off: -10 * sec}}, SNA: TD{Kind: 2, D: 5 * min}, Renew: true}},
+		{Renew: &RenewCase{Kind: "ssh", Prov: "jwk", CType: 2, Backdate: 10 * min, UVA: TD{Kind: 1, T: T{Rel: true, Off: -10 * sec}}, UVB: TD{Kind: 2, D: 5*min - 10*sec}, Renew: true}},
 		// the other default-duration provisioners with a token flow
 		{Renew: &RenewCase{Kind: "x509", Prov: "k8ssa", Backdate: min, Renew: true}},
 		{Renew: &RenewCase{Kind: "ssh", Prov: "k8ssa", CType: 1, Backdate: min}},
